@@ -43,6 +43,15 @@ where
     f
 }
 
+pub(crate) fn uni_kernel<S, O, F>(f: F) -> F
+where
+    S: ScalarStorage,
+    O: MutableScalarStorage,
+    for<'a> F: FnMut(&[&S::StorageType], PutBuffer<O::AddressableMut<'a>>),
+{
+    f
+}
+
 /// One output slot written through the real `PutBuffer` / `PrimitiveSliceMut` / `Validity`.
 /// `$call` is an expression using `$buf`.  Evaluates to `(value, is_valid)`.
 macro_rules! with_put1 {
